@@ -705,11 +705,16 @@ pub fn explore(rep: &Report, prop: &str, th: bool) -> Explored {
                 let n = data.len() as u32;
                 for &c1 in &[1u32, n / 3, 300.min(n - 1)] {
                     for &mid in &[0u32, 1, 40] {
-                        for &cap in &[LARGE, 5] {
+                        // capacities per step: roomy, 5-byte, and mixed ones where an earlier block
+                        // overflows a small buffer, is drained, and a later marker meets 1-3 free bytes
+                        for &(cap, cap2, cap3) in &[(LARGE, LARGE, LARGE), (5u32, 5u32, 5u32), (16, 2, LARGE), (5, 1, LARGE), (16, 3, 5)] {
                             for &f1 in &fl {
                                 for &f2 in &fl {
                                     for &f3 in &[F_NONE, F_SYNC, F_FULL] {
-                                        let sched = [Act { k: c1, cap, flush: f1 }, Act { k: mid, cap, flush: f2 }, Act { k: 60, cap, flush: f3 }];
+                                        if cap != cap2 && (f1 == 5 || f1 == 6 || f2 == 6) {
+                                            continue;
+                                        }
+                                        let sched = [Act { k: c1, cap, flush: f1 }, Act { k: mid, cap: cap2, flush: f2 }, Act { k: 60, cap: cap3, flush: f3 }];
                                         let mut st = m.init();
                                         let mut path = vec![];
                                         let mut alive = true;
